@@ -9,7 +9,9 @@ Import ListNotations.
 Open Scope list_scope.
 Open Scope N_scope.
 
-Definition str_valid (s : str) : Prop := Forall (fun r => valid_rune r = true) s.
+(* every rune is a Unicode scalar value or a raw (invalid UTF-8) byte: true of every Go string
+   seen through the UTF-8 front end (Utf8Proofs.decode_wf) *)
+Definition str_valid (s : str) : Prop := Forall (fun r => go_rune r = true) s.
 
 (* ------------------------------------------------------------------ *)
 (* the string automaton on escaped runes *)
@@ -74,7 +76,11 @@ Section RT.
   Lemma scan_esc_rune r tl :
     scan_str dquote SNorm (esc_rune isp r ++ tl) = pres (esc_rune isp r) (scan_str dquote SNorm tl).
   Proof.
-    unfold esc_rune.
+    unfold esc_rune. destruct (is_raw r).
+    { cbn [app]. rewrite scan_str_x.
+      change (hex2 (r - raw_byte_base)) with (map hexdig [(r - raw_byte_base) / 16 mod 16; (r - raw_byte_base) mod 16]).
+      rewrite scan_str_digits by (try reflexivity; repeat constructor; apply N.mod_lt; lia).
+      rewrite <- pre_list_pres. reflexivity. }
     destruct ((r =? dquote) || (r =? bslash)) eqn:E1.
     { apply scan_str_simple. unfold simple_escape. lia. }
     destruct (isp r) eqn:Ep.
@@ -148,19 +154,19 @@ Lemma fold_out_cons {A B} (add : A -> B -> outcome A) a x r :
   fold_out add a (x :: r) = (a' <- add a x ;; fold_out add a' r).
 Proof. reflexivity. Qed.
 
-Definition clean (s : str) : Prop := Forall (fun c => c <> 0) s.
+Definition clean (s : str) : Prop := Forall (fun c => c <> 0 /\ is_raw c = false) s.
 
-Lemma has_nul_clean s : clean s -> has_nul s = false.
+Lemma has_nul_clean s : clean s -> has_nul s || has_invalid s = false.
 Proof.
-  unfold has_nul. induction 1 as [|c s Hc _ IH]; cbn [existsb]; [reflexivity|].
-  rewrite IH. apply N.eqb_neq in Hc. rewrite Hc. reflexivity.
+  unfold has_nul, has_invalid. induction 1 as [|c s [Hc Hr] _ IH]; cbn [existsb]; [reflexivity|].
+  apply orb_false_iff in IH as [IH1 IH2]. rewrite IH1, IH2, Hr. apply N.eqb_neq in Hc. rewrite Hc. reflexivity.
 Qed.
 
 Lemma join_clean l : Forall clean l -> clean (join_with comma l).
 Proof.
   induction 1 as [|x l Hx Hl IH]; cbn [join_with]; [constructor|].
   destruct l as [|y l']; [exact Hx|].
-  apply Forall_app. split; [exact Hx|]. constructor; [unfold comma; lia|exact IH].
+  apply Forall_app. split; [exact Hx|]. constructor; [unfold comma, is_raw, raw_byte_base; lia|exact IH].
 Qed.
 
 Lemma join_cons2 sep (x y : str) r : join_with sep (x :: y :: r) = x ++ sep :: join_with sep (y :: r).
@@ -201,10 +207,10 @@ Section Loops.
 
   Lemma quote_clean s : clean (quote isp s).
   Proof.
-    unfold quote, clean. constructor; [unfold dquote; lia|]. apply Forall_app. split.
+    unfold quote, clean. constructor; [unfold dquote, is_raw, raw_byte_base; lia|]. apply Forall_app. split.
     - induction s as [|r s IH]; cbn [flat_map]; [constructor|]. apply Forall_app. split; [|exact IH].
-      eapply Forall_impl; [|apply (esc_rune_clean isp isp_ascii r)]. intros c [H _]. exact H.
-    - repeat constructor. unfold dquote. lia.
+      eapply Forall_impl; [|apply (esc_rune_clean isp isp_ascii r)]. intros c (H1 & _ & H3). auto.
+    - repeat constructor; unfold dquote, is_raw, raw_byte_base; lia.
   Qed.
 
   Lemma quote_length s : (2 <= length (quote isp s))%nat.
@@ -365,7 +371,7 @@ Section Loops.
     Lemma kv_clean kv : clean (kv_string isp kv).
     Proof.
       unfold kv_string. apply Forall_app. split; [apply quote_clean|].
-      constructor; [lia|apply quote_clean].
+      constructor; [unfold is_raw, raw_byte_base; lia|apply quote_clean].
     Qed.
 
     Lemma split_map_dq s tl a : s = dquote :: tl -> clean s ->
